@@ -37,11 +37,21 @@ Definition pack (l : bytes) : N := fold_left (fun a b => a * 256 + b) l 1.
 
 Definition cbody_of (e : entry) (p : patch) : cbody :=
   {| cb_parents := parent_ids e; cb_root := e_root e; cb_pdig := e_pdig e; cb_policy := p_policy p |}.
+(* Coq prints big numbers very slowly, so byte strings are reported as (length, 6-byte big-endian chunks) *)
+Fixpoint chunks (fuel : nat) (l : bytes) : list N :=
+  match fuel with
+  | O => []
+  | S f => match l with
+           | [] => []
+           | _ => fold_left (fun a b => a * 256 + b) (firstn 6 l) 0 :: chunks f (skipn 6 l)
+           end
+  end.
+Definition out_bytes (l : bytes) : N * list N := (lenN l, chunks (length l) l).
 (* the three preimages of a real entry: patch (as replay rebuilds it), commit, receipt *)
-Definition preimages (e : entry) : list N :=
+Definition preimages (e : entry) : list (N * list N) :=
   match e_patch e with
-  | Some p => [pack (patch_preimage (replay_body p)); pack (commit_preimage (cbody_of e p));
-               match e_receipt e with Some r => pack (receipt_preimage (r_entries r)) | None => 0 end]
+  | Some p => [out_bytes (patch_preimage (replay_body p)); out_bytes (commit_preimage (cbody_of e p));
+               match e_receipt e with Some r => out_bytes (receipt_preimage (r_entries r)) | None => (0, []) end]
   | None => []
   end.
 (* (packed preimage, recorded digest) rows: the hash function the model is run with is the table of the REAL
@@ -269,12 +279,18 @@ def t_entry(e, I):
             f"{I(e['commit'])} {pt} {rc} {e['atoms']})")
 
 
-def unpack(n):
-    """inverse of the model's pack: base-256 digits after the leading 1"""
-    if n == 0:
+def unpack(v):
+    """inverse of the model's out_bytes: (length, 6-byte big-endian chunks)"""
+    ln, ch = v
+    if ln == 0:
         return None
-    b = n.to_bytes((n.bit_length() + 7) // 8, "big")
-    return b[1:]
+    out = b""
+    rest = ln
+    for c in ch:
+        k = min(6, rest)
+        out += c.to_bytes(k, "big")
+        rest -= k
+    return out
 
 
 SEEK = {1: "EHist", 2: "EHist", 3: "EApply", 4: "ERoot", 5: "ECommit", 6: "EPDig", 8: "ERcpt", 9: "ERcpt", 10: "ECpRoot"}
@@ -431,7 +447,7 @@ def correspondence(r, cases, by_case, tier):
                 continue
             hexes += [unpack(trip[0]).hex(), unpack(trip[1]).hex()]
             want += [("patch_digest", w, t, e["patch"]["digest"]), ("commit_id", w, t, e["commit"])]
-            if trip[2] != 0:
+            if trip[2][0] != 0:
                 hexes.append(unpack(trip[2]).hex())
                 want.append(("receipt_digest", w, t, e["patch"]["decision"]))
         got = vf.vfhash(hexes) if hexes else []
